@@ -48,6 +48,11 @@ pub struct RqCfg {
     pub expect_extra: bool,
 }
 
+thread_local! {
+    /// the request carries the headers of an ordinary form / API post (credentials, cookie, content description)
+    pub static LOGIN_HEADERS: std::cell::Cell<bool> = std::cell::Cell::new(false);
+}
+
 impl RqCfg {
     pub fn json(&self) -> Value {
         let cln: i64 = match self.framing.as_str() {
@@ -84,6 +89,10 @@ impl RqCfg {
             _ => {}
         }
         b = b.header("x-note", "verif");
+        if LOGIN_HEADERS.with(|x| x.get()) {
+            b = b.header("authorization", "Bearer t0ken").header("cookie", "sid=1").header("content-type", "application/x-www-form-urlencoded")
+                .header("content-language", "en").header("content-encoding", "identity").header("content-location", "/form");
+        }
         b.body(()).unwrap()
     }
     pub fn reqline_len(&self) -> usize {
@@ -157,7 +166,11 @@ impl EarlyMsg {
                              // no reason phrase and no space after the code: not what the grammar says, but what servers send
                              "HTTP/1.1 403\r\n\r\n", "HTTP/1.0 503 \r\n\r\n"][variant % 8].into(),
             "refuseFields" => ["HTTP/1.1 403 Forbidden\r\nX-A: b\r\nContent-Length: 0\r\n\r\n", "HTTP/1.1 413 Too Large\r\nContent-Length: 0\r\nX-B: c\r\n\r\n",
-                               "HTTP/1.1 403 Forbidden\r\nConnection: keep-alive\r\nContent-Length: 0\r\n\r\n", "HTTP/1.0 401 No\r\nConnection: Keep-Alive\r\nContent-Length: 0\r\n\r\n"][variant % 4].into(),
+                               "HTTP/1.1 403 Forbidden\r\nConnection: keep-alive\r\nContent-Length: 0\r\n\r\n", "HTTP/1.0 401 No\r\nConnection: Keep-Alive\r\nContent-Length: 0\r\n\r\n",
+                               // everyday refusals whose first field line ends well beyond 64 bytes
+                               "HTTP/1.1 417 Expectation Failed\r\nDate: Mon, 27 Jul 2009 12:28:53 GMT\r\nContent-Length: 0\r\n\r\n",
+                               "HTTP/1.1 401 Unauthorized\r\nWWW-Authenticate: Basic realm=\"a realm with a rather long descriptive name\", charset=\"UTF-8\"\r\nContent-Length: 0\r\n\r\n",
+                               "HTTP/1.1 500 Internal Server Error\r\nContent-Type: text/plain; charset=utf-8\r\nContent-Length: 0\r\n\r\n"][variant % 7].into(),
             _ => ["HTTP/1.1 403 Forbidden\r\nConnection: close\r\nX-A: b\r\n\r\n", "HTTP/1.0 403 Forbidden\r\nConnection: close\r\nX-A: b\r\n\r\n"][variant % 2].into(),
         };
         // now and then the server ends its lines with a bare LF (outside the grammar, accepted by common parsers)
